@@ -3639,6 +3639,10 @@ impl<Front: SocketHandler> ConnectionH2<Front> {
             if offset > 0 {
                 kawa.storage.fill(offset);
                 if self.flush_zero_to_socket() {
+                    // `zero` now holds unsent bytes: it must not be read into
+                    // until they are gone (the stage above re-arms READABLE)
+                    self.readiness.interest.insert(Ready::WRITABLE);
+                    self.readiness.interest.remove(Ready::READABLE);
                     self.expect_write = Some(H2StreamId::Zero);
                     // Edge-triggered epoll: ensure pending TLS data gets flushed
                     if self.socket.socket_wants_write() {
@@ -3694,6 +3698,10 @@ impl<Front: SocketHandler> ConnectionH2<Front> {
             if offset > 0 {
                 kawa.storage.fill(offset);
                 if self.flush_zero_to_socket() {
+                    // `zero` now holds unsent bytes: it must not be read into
+                    // until they are gone (the stage above re-arms READABLE)
+                    self.readiness.interest.insert(Ready::WRITABLE);
+                    self.readiness.interest.remove(Ready::READABLE);
                     self.expect_write = Some(H2StreamId::Zero);
                     // Edge-triggered epoll: ensure pending TLS data gets flushed
                     if self.socket.socket_wants_write() {
